@@ -237,13 +237,32 @@ def stepObs (scn : Json) : List (String × Json) × Option String :=
     (match claim with | .ok c => checkCrd xrd c (claimSpecMachinery xrd) "Namespaced" | _ => none)
   (out, bad)
 
+/-- the reconcilers over the CRDs of an earlier state (harness/main/c11_recon.go): per round the
+result class and the stored CRD = the model's `reconcileStep` -/
+def reconObs (scn : Json) : Json :=
+  if !(has scn "recon") then .null else
+  let rc := obj scn "recon"
+  let xrd := xrdOf (obj scn "xrd")
+  let prev : Option Xrd := if has rc "prev" then some (xrdOf (obj rc "prev")) else none
+  let rounds := max 1 (min 2 (nat rc "rounds"))
+  let one (w : Which) : Json :=
+    let stored : Option Crd := match derive w xrd, prev.map (derive w) with
+      | .ok d, some (.ok p) => if p.name == d.name && p.name != "" then some p else none
+      | _, _ => none
+    Json.arr ((List.range rounds).map fun i =>
+      match reconcileStep w xrd stored with
+      | .error _ => Json.mkObj [("res", .str "err"), ("crd", .null)]
+      | .ok c => Json.mkObj [("res", .str (if i == 0 && stored.isNone then "requeue" else "ok")), ("crd", crdJson c)]).toArray
+  Json.mkObj [("definition", one .xr),
+              ("offered", if xrd.claimNames.isSome then one .claim else Json.arr #[])]
+
 /-- the scenario's own request, then the `more` requests: the model is per request (nothing is
 carried from one to the next), which is what exposes state the implementation carries over -/
 def handler : Handler := fun scn =>
   let (out, bad) := stepObs scn
   let more := (arr scn "more").map stepObs
-  let moreJson := Json.arr (more.map fun (o, _) => Json.mkObj (o ++ [("more", Json.arr #[])])).toArray
+  let moreJson := Json.arr (more.map fun (o, _) => Json.mkObj (o ++ [("more", Json.arr #[]), ("recon", Json.null)])).toArray
   let bad := more.foldl (fun b (_, x) => b <|> x) bad
-  .ok (Json.mkObj (out ++ [("more", moreJson)]), bad.isNone, bad.getD "")
+  .ok (Json.mkObj (out ++ [("more", moreJson), ("recon", reconObs scn)]), bad.isNone, bad.getD "")
 
 end Xp.C11
